@@ -48,3 +48,20 @@ package bootstrapping
 //@ fieldorder EvaluationKeys
 //@   property C08
 //
+
+// A decoder stores what it decodes in the caller's object (C08; finding F41): see /verif/cmd/lvc/fieldordercheck.go
+//@ decodes EvaluationKeys.ReadFrom
+//@   property C08
+//
+//@ decodes EvaluationKeys.UnmarshalBinary
+//@   property C08
+//
+//@ decodes Parameters.UnmarshalBinary
+//@   property C08
+//
+//@ decodes Parameters.UnmarshalJSON
+//@   property C08
+//
+//@ decodes ParametersLiteral.UnmarshalBinary
+//@   property C08
+//
